@@ -1,4 +1,6 @@
-(* Prefix.v — src/regex_radix_tree/prefix.rs transliterated (scanner state was_escape/group_level),
+(* Prefix.v — src/regex_radix_tree/prefix.rs transliterated (scanner state was_escape / group_level /
+   class_level / class_start / class_range, as repaired in 9944bb4 and 4f24679: a parenthesis inside a character
+   class is a literal, and so is whatever follows the '-' of a range),
    the token shape of rule regexes (escaped literals interleaved with parenthesised groups) and the
    cut lemma: common_prefix_char_size only ever cuts on a common token boundary. *)
 Require Import RIO.Base.
@@ -6,15 +8,49 @@ Open Scope N_scope.
 
 Definition chr := N.
 Definition LP : chr := 40. Definition RP : chr := 41. Definition BS : chr := 92.
+Definition LB : chr := 91. Definition RB : chr := 93. Definition CARET : chr := 94. Definition MINUS : chr := 45.
 
-Record sc := { esc : bool; lvl : Z }.
-Definition sc0 := {| esc := false; lvl := 0%Z |}.
+(* esc = was_escape, lvl = group_level, cl = class_level (depth of nested character classes),
+   cs = class_start (2: '[' just read, 1: '[^' just read, 0: elsewhere),
+   cr = class_range (an unescaped '-' after an item of the class has just been read) *)
+Record sc := { esc : bool; lvl : Z; cl : nat; cs : nat; cr : bool }.
+Definition sc0 := {| esc := false; lvl := 0%Z; cl := 0%nat; cs := 0%nat; cr := false |}.
 Definition sc_step (s : sc) (c : chr) : sc :=
-  let l := if (c =? LP) && negb (esc s) then (lvl s + 1)%Z
-           else if (c =? RP) && negb (esc s) then (lvl s - 1)%Z else lvl s in
-  let e := if (c =? BS) && negb (esc s) then true else false in
-  {| esc := e; lvl := l |}.
-Definition cut_ok (s : sc) : bool := (lvl s =? 0)%Z && negb (esc s).
+  let ne := negb (esc s) in
+  let inc := Nat.ltb 0 (cl s) in
+  let l := if inc then lvl s
+           else if (c =? LB) && ne then lvl s
+           else if (c =? LP) && ne then (lvl s + 1)%Z
+           else if (c =? RP) && ne then (lvl s - 1)%Z else lvl s in
+  let k := if inc then
+             (if ne then
+                if cr s then (if c =? RB then Nat.pred (cl s) else cl s)
+                else if c =? LB then S (cl s)
+                else if (c =? RB) && Nat.eqb (cs s) 0 then Nat.pred (cl s)
+                else cl s
+              else cl s)
+           else if (c =? LB) && ne then 1%nat else cl s in
+  let st := if inc then
+              (if ne then
+                 if cr s then cs s
+                 else if c =? LB then 2%nat
+                 else if (c =? RB) && Nat.eqb (cs s) 0 then cs s
+                 else if (c =? CARET) && Nat.eqb (cs s) 2 then 1%nat
+                 else 0%nat
+               else 0%nat)
+            else if (c =? LB) && ne then 2%nat else cs s in
+  let r := if inc then
+             (if ne then
+                if cr s then false
+                else if c =? LB then cr s
+                else if (c =? RB) && Nat.eqb (cs s) 0 then cr s
+                else if (c =? CARET) && Nat.eqb (cs s) 2 then cr s
+                else (c =? MINUS) && Nat.eqb (cs s) 0
+              else false)
+           else cr s in
+  let e := if (c =? BS) && ne then true else false in
+  {| esc := e; lvl := l; cl := k; cs := st; cr := r |}.
+Definition cut_ok (s : sc) : bool := (lvl s =? 0)%Z && Nat.eqb (cl s) 0 && negb (esc s).
 Arguments sc_step : simpl never.
 Arguments cut_ok : simpl never.
 
@@ -39,13 +75,14 @@ Definition render1 (t : tok) : list chr :=
 Definition render (ts : list tok) : list chr := flat_map render1 ts.
 
 Definition scan (s : sc) (l : list chr) : sc := fold_left sc_step l s.
-(* body stays at depth >= 1 and ends at depth 1 outside an escape, starting from depth 1 *)
+(* body stays at group depth >= 1 and ends at depth 1 outside an escape and outside a character class,
+   starting from depth 1 *)
 Fixpoint body_ok_from (s : sc) (b : list chr) : bool :=
   match b with
-  | [] => (lvl s =? 1)%Z && negb (esc s)
+  | [] => (lvl s =? 1)%Z && Nat.eqb (cl s) 0 && negb (esc s)
   | c :: b' => let s' := sc_step s c in (1 <=? lvl s')%Z && body_ok_from s' b'
   end.
-Definition s1 := {| esc := false; lvl := 1%Z |}.
+Definition s1 := {| esc := false; lvl := 1%Z; cl := 0%nat; cs := 0%nat; cr := false |}.
 Definition tok_ok (t : tok) : bool := match t with TLit _ => true | TGrp b => body_ok_from s1 b end.
 
 (* last cut position reached while scanning a common prefix w, counting from i, current best pl *)
@@ -69,29 +106,61 @@ Proof. induction l as [|a l IH]; intros [|b r]; simpl; try (exists []; reflexivi
 Lemma is_meta_BS : is_meta BS = true. Proof. reflexivity. Qed.
 Lemma is_meta_LP : is_meta LP = true. Proof. reflexivity. Qed.
 Lemma is_meta_RP : is_meta RP = true. Proof. reflexivity. Qed.
+Lemma is_meta_LB : is_meta LB = true. Proof. reflexivity. Qed.
 Lemma nonmeta_neq c : is_meta c = false -> c <> BS /\ c <> LP /\ c <> RP.
 Proof. intros H. repeat split; intros ->; discriminate. Qed.
+Lemma nonmeta_neq_LB c : is_meta c = false -> c <> LB.
+Proof. intros H ->. discriminate. Qed.
 
-Lemma step_plain s c : is_meta c = false -> esc s = false -> sc_step s c = s.
-Proof. intros Hm He. destruct (nonmeta_neq c Hm) as (H1 & H2 & H3). unfold sc_step.
-  apply N.eqb_neq in H1, H2, H3. rewrite H1, H2, H3. simpl. destruct s; simpl in *; subst; reflexivity. Qed.
-Lemma step_bs s : esc s = false -> sc_step s BS = {| esc := true; lvl := lvl s |}.
-Proof. intros He. unfold sc_step. rewrite He. reflexivity. Qed.
-Lemma step_escaped s c : esc s = true -> sc_step s c = {| esc := false; lvl := lvl s |}.
-Proof. intros He. unfold sc_step. rewrite He. simpl. rewrite !andb_false_r. reflexivity. Qed.
+(* class_start is 0 and class_range is false outside a class, class_range implies class_start = 0:
+   an invariant of the scanner *)
+Definition sc_inv (s : sc) : Prop := (cl s = 0%nat -> cs s = 0%nat /\ cr s = false) /\ (cr s = true -> cs s = 0%nat).
+Lemma sc_inv0 : sc_inv sc0. Proof. split; [intros _; split; reflexivity|discriminate]. Qed.
+Lemma sc_inv1 : sc_inv s1. Proof. split; [intros _; split; reflexivity|discriminate]. Qed.
+Lemma step_inv s c : sc_inv s -> sc_inv (sc_step s c).
+Proof.
+  unfold sc_inv, sc_step. destruct s as [e l k st r]. cbn [esc lvl cl cs cr]. intros [H1 H2].
+  destruct k as [|k]; cbn [Nat.ltb Nat.leb].
+  - destruct (H1 eq_refl) as [-> ->]. destruct ((c =? LB) && negb e); split; try discriminate; intros _; split; reflexivity.
+  - destruct (negb e); [|split; [intros _; split; reflexivity|discriminate]].
+    destruct r.
+    + rewrite (H2 eq_refl). split; [intros _; split; reflexivity|discriminate].
+    + destruct (c =? LB); [split; discriminate|].
+      destruct ((c =? RB) && Nat.eqb st 0) eqn:E.
+      * apply andb_prop in E. destruct E as [_ E]. apply Nat.eqb_eq in E. subst st. split; [intros _; split; reflexivity|discriminate].
+      * destruct ((c =? CARET) && Nat.eqb st 2); split; try discriminate; intros _; reflexivity.
+Qed.
+Lemma scan_inv b : forall s, sc_inv s -> sc_inv (scan s b).
+Proof. induction b as [|c b IH]; intros s H; [exact H|]. cbn [scan fold_left]. apply IH. apply step_inv. exact H. Qed.
 
-(* body scanning: last_cut never updates inside, and the state after the body is s1-like *)
-Lemma body_scan b : forall s i pl, (1 <= lvl s)%Z -> body_ok_from s b = true ->
-   last_cut b s i pl = pl /\ scan s b = {| esc := false; lvl := 1 |} /\
+(* outside a class and outside an escape *)
+Lemma step_plain s c : is_meta c = false -> esc s = false -> cl s = 0%nat -> sc_step s c = s.
+Proof. intros Hm He Hc. destruct (nonmeta_neq c Hm) as (H1 & H2 & H3). pose proof (nonmeta_neq_LB c Hm) as H4. unfold sc_step.
+  apply N.eqb_neq in H1, H2, H3, H4. rewrite H1, H2, H3, H4, He, Hc. destruct s; cbn [esc lvl cl cs cr] in *; subst; reflexivity. Qed.
+Lemma step_bs s : esc s = false -> cl s = 0%nat -> sc_step s BS = {| esc := true; lvl := lvl s; cl := cl s; cs := cs s; cr := cr s |}.
+Proof. intros He Hc. unfold sc_step. rewrite He, Hc. reflexivity. Qed.
+Lemma step_escaped s c : esc s = true -> cl s = 0%nat -> sc_step s c = {| esc := false; lvl := lvl s; cl := cl s; cs := cs s; cr := cr s |}.
+Proof. intros He Hc. unfold sc_step. rewrite He, Hc. cbn [negb Nat.ltb Nat.leb]. rewrite !andb_false_r. reflexivity. Qed.
+(* the group level only moves outside classes, by one *)
+Lemma step_lvl_class s c : cl s <> 0%nat -> lvl (sc_step s c) = lvl s.
+Proof. intros H. unfold sc_step. cbn [lvl]. destruct (cl s) as [|k]; [contradiction|reflexivity]. Qed.
+
+Lemma cut_ok_lvl s : (1 <= lvl s)%Z -> cut_ok s = false.
+Proof. intros H. unfold cut_ok. destruct (lvl s =? 0)%Z eqn:E; [apply Z.eqb_eq in E; lia|reflexivity]. Qed.
+
+(* body scanning: last_cut never updates inside, and the state after the body is s1 *)
+Lemma body_scan b : forall s i pl, sc_inv s -> (1 <= lvl s)%Z -> body_ok_from s b = true ->
+   last_cut b s i pl = pl /\ scan s b = s1 /\
    (forall w x, b = w ++ x -> (1 <= lvl (scan s w))%Z).
-Proof. induction b as [|c b IH]; simpl; intros s i pl Hl Hok.
-  - apply andb_prop in Hok. destruct Hok as [H1 H2]. apply Z.eqb_eq in H1. apply negb_true_iff in H2.
-    repeat split; [destruct s; simpl in *; subst; reflexivity|]. intros w x Hw. destruct w; [simpl; exact Hl|discriminate].
+Proof. induction b as [|c b IH]; intros s i pl Hi Hl Hok; cbn [body_ok_from] in Hok; cbn [last_cut scan fold_left].
+  - apply andb_prop in Hok. destruct Hok as [Hok H3]. apply andb_prop in Hok. destruct Hok as [H1 H2].
+    apply Z.eqb_eq in H1. apply Nat.eqb_eq in H2. apply negb_true_iff in H3.
+    repeat split; [destruct (proj1 Hi H2) as [H4 H5]; destruct s; cbn [esc lvl cl cs cr] in *; subst; reflexivity|].
+    intros w x Hw. destruct w; [exact Hl|discriminate].
   - apply andb_prop in Hok. destruct Hok as [H1 H2]. apply Z.leb_le in H1.
-    destruct (IH (sc_step s c) (S i) pl H1 H2) as (Ha & Hb & Hc).
-    assert (cut_ok (sc_step s c) = false) as Hcut. { unfold cut_ok. destruct (lvl (sc_step s c) =? 0)%Z eqn:E; [apply Z.eqb_eq in E; unfold sc_step in E; simpl in E; lia|reflexivity]. }
-    rewrite Hcut. repeat split; [exact Ha|exact Hb|].
-    intros w x Hw. destruct w as [|c' w]; [simpl; exact Hl|]. inversion Hw; subst. simpl. apply (Hc w x). reflexivity. Qed.
+    destruct (IH (sc_step s c) (S i) pl (step_inv s c Hi) H1 H2) as (Ha & Hb & Hc).
+    rewrite (cut_ok_lvl _ H1). repeat split; [exact Ha|exact Hb|].
+    intros w x Hw. destruct w as [|c' w]; [exact Hl|]. inversion Hw; subst. cbn [scan fold_left]. apply (Hc w x). reflexivity. Qed.
 
 Lemma last_cut_app w1 w2 s i pl : last_cut (w1 ++ w2) s i pl =
    last_cut w2 (scan s w1) (i + length w1)%nat (last_cut w1 s i pl).
@@ -99,15 +168,15 @@ Proof. revert s i pl. induction w1 as [|a w1 IH]; simpl; intros s i pl; [f_equal
   rewrite IH. f_equal. lia. Qed.
 Lemma scan_app s a b : scan s (a ++ b) = scan (scan s a) b. Proof. apply fold_left_app. Qed.
 
-
-Lemma cut_state s : cut_ok s = true -> s = sc0.
-Proof. unfold cut_ok. intros H. apply andb_prop in H. destruct H as [Hl He]. apply Z.eqb_eq in Hl. apply negb_true_iff in He.
+Lemma cut_state s : sc_inv s -> cut_ok s = true -> s = sc0.
+Proof. unfold cut_ok. intros Hi H. apply andb_prop in H. destruct H as [H He]. apply andb_prop in H. destruct H as [Hl Hc].
+  apply Z.eqb_eq in Hl. apply Nat.eqb_eq in Hc. apply negb_true_iff in He. destruct (proj1 Hi Hc) as [Hs Hr].
   destruct s; simpl in *; subst; reflexivity. Qed.
 Lemma step0_LP : sc_step sc0 LP = s1. Proof. reflexivity. Qed.
 Lemma step1_RP : sc_step s1 RP = sc0. Proof. reflexivity. Qed.
 Lemma step0_plain c : is_meta c = false -> sc_step sc0 c = sc0. Proof. intros; apply step_plain; auto. Qed.
-Lemma step0_BS : sc_step sc0 BS = {| esc := true; lvl := 0 |}. Proof. reflexivity. Qed.
-Lemma stepE c : sc_step {| esc := true; lvl := 0 |} c = sc0. Proof. apply step_escaped. reflexivity. Qed.
+Lemma step0_BS : sc_step sc0 BS = {| esc := true; lvl := 0; cl := 0; cs := 0; cr := false |}. Proof. reflexivity. Qed.
+Lemma stepE c : sc_step {| esc := true; lvl := 0; cl := 0; cs := 0; cr := false |} c = sc0. Proof. apply step_escaped; reflexivity. Qed.
 
 (* whole token: from the cut state, ends in the cut state, last_cut = end position *)
 Lemma tok_scan t i pl : tok_ok t = true ->
@@ -117,17 +186,16 @@ Proof. intros Hok. destruct t as [c|b]; cbn [render1].
     + cbn [scan fold_left last_cut length]. rewrite step0_BS, stepE. split; [reflexivity|]. replace (cut_ok sc0) with true by reflexivity. lia.
     + cbn [scan fold_left last_cut length]. rewrite step0_plain by exact Em. split; [reflexivity|]. replace (cut_ok sc0) with true by reflexivity. lia.
   - cbn [tok_ok] in Hok. change (LP :: b ++ [RP]) with ([LP] ++ b ++ [RP]).
-    assert (Hbs := fun i pl => body_scan b s1 i pl ltac:(simpl; lia) Hok).
+    assert (Hbs := fun i pl => body_scan b s1 i pl sc_inv1 ltac:(simpl; lia) Hok).
     rewrite !scan_app, !last_cut_app. cbn [scan fold_left last_cut length]. rewrite step0_LP.
     replace (cut_ok s1) with false by reflexivity. rewrite (proj1 (Hbs _ _)), (proj1 (proj2 (Hbs 0%nat 0%nat))).
-    change {| esc := false; lvl := 1 |} with s1. rewrite step1_RP. split; [reflexivity|].
+    rewrite step1_RP. split; [reflexivity|].
     replace (cut_ok sc0) with true by reflexivity. rewrite !app_length. cbn [length]. lia. Qed.
 
 Lemma body_prefix_nocut w : forall y st i pl, (1 <= lvl st)%Z -> body_ok_from st (w ++ y) = true -> last_cut w st i pl = pl.
 Proof. induction w as [|a w IH]; intros y st i pl Hl Hok; [reflexivity|].
   cbn [app body_ok_from] in Hok. apply andb_prop in Hok. destruct Hok as [H1 H2]. apply Z.leb_le in H1.
-  cbn [last_cut].
-  assert (cut_ok (sc_step st a) = false) as ->. { unfold cut_ok. destruct (lvl (sc_step st a) =? 0)%Z eqn:E; [apply Z.eqb_eq in E; lia|reflexivity]. }
+  cbn [last_cut]. rewrite (cut_ok_lvl _ H1).
   eapply IH; eassumption. Qed.
 
 (* strict prefix of a token: no cut inside *)
@@ -153,6 +221,7 @@ Proof. intros Hok Hw Hx. destruct t as [c|b]; cbn [render1] in Hw.
 Lemma render1_nonempty t : render1 t <> [].
 Proof. destruct t as [c|b]; cbn [render1]; [destruct (is_meta c)|]; discriminate. Qed.
 
+
 Lemma app_eq_prefix {A} (a b c d : list A) : a ++ b = c ++ d -> (exists x, c = a ++ x) \/ (exists x, a = c ++ x).
 Proof. revert c. induction a as [|h a IH]; intros c H; [left; exists c; reflexivity|].
   destruct c as [|h' c]; [right; exists (h :: a); reflexivity|]. inversion H; subst.
@@ -161,8 +230,9 @@ Proof. revert c. induction a as [|h a IH]; intros c H; [left; exists c; reflexiv
 (* an ok body cannot be extended past a closing paren at depth 1 *)
 Lemma body_ok_stops b1 : forall st y, body_ok_from st b1 = true -> body_ok_from st (b1 ++ RP :: y) = false.
 Proof. induction b1 as [|c b1 IH]; intros st y H.
-  - cbn [body_ok_from] in H. apply andb_prop in H. destruct H as [H1 H2]. apply Z.eqb_eq in H1. apply negb_true_iff in H2.
-    cbn [app body_ok_from]. assert (lvl (sc_step st RP) = 0%Z) as E. { unfold sc_step. rewrite H2. simpl. lia. }
+  - cbn [body_ok_from] in H. apply andb_prop in H. destruct H as [H H3]. apply andb_prop in H. destruct H as [H1 H2].
+    apply Z.eqb_eq in H1. apply Nat.eqb_eq in H2. apply negb_true_iff in H3.
+    cbn [app body_ok_from]. assert (lvl (sc_step st RP) = 0%Z) as E. { unfold sc_step. rewrite H2, H3. cbn [lvl]. change (RP =? LB) with false. change (RP =? LP) with false. change (RP =? RP) with true. cbn [andb negb Nat.ltb Nat.leb]. lia. }
     rewrite E. reflexivity.
   - cbn [app body_ok_from] in *. apply andb_prop in H. destruct H as [H1 H2]. rewrite H1. simpl. apply IH. exact H2. Qed.
 
